@@ -436,6 +436,7 @@ def exec_parse_fn(body_src, cls, consts, canon, extra_env=None):
 
 BASELINE = None      # translation of the pinned tree (translator/baseline.txt), used per item when an item cannot be translated
 FALLBACKS = []       # [{"component": …, "reason": …}] of this run
+EXTRA_CONST_NAMES = []  # pinned-tree constants not found as items this run, still named in abi.rs
 SKIPPED_CONSTS = []  # constants whose initialiser could not be evaluated and that the pinned tree does not have
 
 
@@ -1045,8 +1046,16 @@ def emit_rust(consts_list, structs, to_str, sizes):
     L = ["// GENERATED by /verif/translator/translate.py — do not edit.",
          "#![allow(dead_code, clippy::all)]",
          "pub const ABI_CONSTS: &[(&str, i128)] = &["]
+    seen = set()
     for name, ty, v, pub in consts_list:
         if ty in INT_TYPES and pub:
+            L.append('    ("%s", elf::abi::%s as i128),' % (name, name))
+            seen.add(name)
+    # exported constants of the pinned tree that this run did not find as a `pub const NAME: T = …;` item but whose name
+    # still occurs in abi.rs (defined through a macro, say): printed from the compiled crate all the same, and compared
+    # with the reference by ./check
+    for name in EXTRA_CONST_NAMES:
+        if name not in seen:
             L.append('    ("%s", elf::abi::%s as i128),' % (name, name))
     L.append("];")
     L.append("pub fn cstructs() -> Vec<(&'static str, usize, Vec<(&'static str, usize)>)> {")
@@ -1138,6 +1147,13 @@ def main():
             feats = extract_features(args.repo)
         except TranslateError as e:
             feats = fallback("features", None, e)
+        if BASELINE is not None and "consts" in BASELINE:
+            have = set(n for n, _, _, _ in consts_list)
+            words = set(re.findall(r"[A-Za-z_][A-Za-z0-9_]*", abi_src))
+            for n, (ty, _v) in sorted(BASELINE["consts"].items()):
+                if n not in have and ty in INT_TYPES and n in words:
+                    EXTRA_CONST_NAMES.append(n)
+                    print("TRANSLATE-NOTE: exported constant %s is not a `pub const` item any more; its compiled value is compared with the reference" % n)
         import accessors as accmod
         accs = accmod.translate_accessors(lambda f: read_src(args.repo, f), consts, crate_aliases(args.repo),
                                           None if args.write_baseline else fallback)
